@@ -207,8 +207,9 @@ func runTaintOps(r *Rng, n int, w io.Writer, stats map[string]int) {
 			ks.store[api.Name] = api.materialise(sec)
 		}
 		rec.reset()
-		if r.chance(15) {
+		if r.chance(20) {
 			rec.FailAt[r.intn(2)] = true
+			rec.Conflict = r.chance(50) // the failing UPDATE is a 409: the taints were rewritten behind our back
 		}
 		kind := r.pick("add", "add", "delete", "delete", "time")
 		effect := r.pick("", "", "NoSchedule", "NoExecute", "PreferNoSchedule")
@@ -492,6 +493,9 @@ func awsOpCase(r *Rng, fleet bool, w io.Writer) string {
 		sim.asgs[g.Name] = g
 		cfg := cloudprovider.NodeGroupConfig{Name: "g0", GroupID: "asg0"}
 		kind := r.pick("increase", "delete", "delete")
+		// fleet mode: now and then several scale-ups in a row on the same node group, most of them failing (the provider
+		// counts consecutive failures and gives up at the third)
+		fleetSeq := fleet && r.chance(30)
 		if fleet {
 			kind = "increase"
 			cfg.AWSConfig.LaunchTemplateID = "lt-1"
@@ -550,6 +554,9 @@ func awsOpCase(r *Rng, fleet bool, w io.Writer) string {
 					delta = int64(r.pickI(1001, 1021, 1999, 2000, 2001, 2500))
 				}
 				g.Max = g.Desired + delta + int64(r.pickI(0, 0, 5, -1))
+				if fleetSeq {
+					g.Max = g.Desired + delta + 300 // room for the follow-up requests
+				}
 				rec.reset()
 				prov.Refresh()
 				pg["asg"] = sim.protoAsg(g)
@@ -566,6 +573,19 @@ func awsOpCase(r *Rng, fleet bool, w io.Writer) string {
 				case 1:
 					for t := 0; t < 5; t++ {
 						sim.ec2.notReady[t] = true
+					}
+				}
+				if !big && r.chance(40) {
+					// aim at one particular AttachInstances call: the first, the last (the remainder batch) or any
+					nb := (int(delta) + 19) / 20
+					status := 1
+					if sim.ec2.notReady[0] && !sim.ec2.notReady[1] {
+						status = 2
+					}
+					k := r.pickI(0, nb-1, nb-1, r.intn(nb))
+					rec.FailAt = map[int]bool{1 + status + k: true}
+					if r.chance(30) {
+						rec.FailAt[1+status+k+1] = true // and the clean-up call that follows
 					}
 				}
 				if big {
@@ -636,6 +656,31 @@ func awsOpCase(r *Rng, fleet bool, w io.Writer) string {
 		line["obs"] = obs
 		line["seq"] = 0
 		emitLine(w, line)
+		if fleetSeq {
+			for seq := 1; seq <= 3; seq++ {
+				if o, _ := obs["outcome"].(string); o == "fatal:fleet-strikes" {
+					break
+				}
+				rec.reset()
+				sim.ec2.fleetMode = "ok"
+				sim.ec2.fleetSplit = r.pickI(1, 2)
+				sim.ec2.notReady = map[int]bool{}
+				d2 := int64(r.pickI(1, 2, 21, 41))
+				if r.chance(80) {
+					rec.FailAt[2+r.intn(2)] = true // an AttachInstances call fails (calls: 0 CreateFleet, 1 status, 2.. attach)
+					if d2 <= 20 {
+						rec.FailAt[2] = true
+					}
+				}
+				if r.chance(20) {
+					rec.FailAt[3+r.intn(2)] = true // and perhaps the clean-up as well
+				}
+				outcome := protect(func() error { return ng.IncreaseSize(d2) })
+				obs = map[string]interface{}{"outcome": outcome, "j": nnEntries(rec.Entries)}
+				emitLine(w, map[string]interface{}{"op": "awsop", "kind": "increase", "cfg": pcfg, "g": pg, "delta": d2, "seq": seq,
+					"resps": nnResps(rec.Resps), "obs": obs})
+			}
+		}
 		// follow-up operations on the SAME provider object, without a refresh in between: the provider's cached
 		// group must keep describing what AWS last told it plus what AWS accepted since (the model carries the
 		// cached group across the sequence). Increases and deletions, faults at any call of the follow-up.
